@@ -4,9 +4,11 @@ package main
 import (
 	"bufio"
 	"bytes"
+	"flag"
 	"fmt"
 	"math/rand"
 	"strconv"
+	"strings"
 	"time"
 
 	"github.com/valyala/fasthttp"
@@ -20,6 +22,21 @@ type cop struct {
 	N int64  `json:"n,omitempty"`
 	B bool   `json:"b,omitempty"`
 	S bool   `json:"s,omitempty"` // use the string flavour of the setter
+	// expire: extra nanoseconds (the text has second resolution) and a non-UTC location for the same instant
+	Ns  int64 `json:"ns,omitempty"`
+	Loc bool  `json:"loc,omitempty"`
+	// copyfrom: the setter calls that build the source cookie of c.CopyTo(src)
+	Src []cop `json:"src,omitempty"`
+}
+
+// jar operations of the two header types
+type jop struct {
+	T     string      `json:"t"` // set del delall raw | rset rdel rdelclient rdelall
+	K     hlib.B      `json:"k,omitempty"`
+	V     hlib.B      `json:"v,omitempty"`
+	Pairs [][2]hlib.B `json:"pairs,omitempty"`
+	C     []cop       `json:"c,omitempty"`
+	Vr    int         `json:"vr,omitempty"`
 }
 
 type desc struct {
@@ -28,6 +45,9 @@ type desc struct {
 	Src  hlib.B      `json:"src,omitempty"`
 	Sets [][2]hlib.B `json:"sets,omitempty"`
 	Vr   int         `json:"vr,omitempty"`
+	Jar  []jop       `json:"jar,omitempty"`
+	Peek []hlib.B    `json:"peek,omitempty"`
+	Pool bool        `json:"pool,omitempty"` // cookie: take the object from the pool after releasing a used one
 }
 
 var sameSiteNames = []string{"SSDisabled", "SSDefault", "SSLax", "SSStrict", "SSNone"}
@@ -62,14 +82,24 @@ func kvList(kvs [][2][]byte) string {
 	return hlib.List(it)
 }
 
-func run(d desc) hlib.Case {
-	c := hlib.Case{Kind: d.Kind}
-	switch d.Kind {
-	case "cookie":
-		var ck fasthttp.Cookie
-		var ops []string
-		np := map[string][]byte{"/": fasthttp.VerifNormalizePath([]byte("/"))}
-		for _, o := range d.Ops {
+// a Cookie object with every field set, to check that Reset / ParseBytes / the pool leave nothing behind
+func dirty(c *fasthttp.Cookie) {
+	c.SetKey("old")
+	c.SetValue("old")
+	c.SetDomain("old.example")
+	c.SetPath("/old")
+	c.SetExpire(time.Unix(1000000000, 0))
+	c.SetMaxAge(77)
+	c.SetHTTPOnly(true)
+	c.SetSecure(true)
+	c.SetSameSite(fasthttp.CookieSameSiteStrictMode)
+	c.SetPartitioned(true)
+}
+
+// applyCops runs the setter calls on ck and returns the model's op terms
+func applyCops(ck *fasthttp.Cookie, cops []cop, np map[string][]byte) []string {
+	var ops []string
+		for _, o := range cops {
 			v := []byte(o.V)
 			switch o.T {
 			case "key":
@@ -108,7 +138,11 @@ func run(d desc) hlib.Case {
 				if o.N == zeroUnix {
 					ck.SetExpire(time.Time{})
 				} else {
-					ck.SetExpire(time.Unix(o.N, 0).UTC())
+					t := time.Unix(o.N, o.Ns).UTC()
+					if o.Loc {
+						t = t.In(time.FixedZone("X", 5*3600+1800))
+					}
+					ck.SetExpire(t)
 				}
 				ops = append(ops, hlib.App("OExpire", hlib.Z(o.N)))
 			case "httponly":
@@ -126,24 +160,55 @@ func run(d desc) hlib.Case {
 			case "reset":
 				ck.Reset()
 				ops = append(ops, "OReset")
+			case "copyfrom":
+				var src fasthttp.Cookie
+				sops := applyCops(&src, o.Src, np)
+				ck.CopyTo(&src)
+				ops = append(ops, hlib.App("OCopyFrom", hlib.App("crun", "NPF", hlib.List(sops))))
 			default:
 				panic("bad cop " + o.T)
 			}
 		}
-		var tbl []string
-		for _, k := range hlib.SortedKeys(np) {
-			tbl = append(tbl, hlib.Tuple(pk.HexS(k), pk.Hex(np[k])))
+	return ops
+}
+
+func npTable(np map[string][]byte) string {
+	var tbl []string
+	for _, k := range hlib.SortedKeys(np) {
+		tbl = append(tbl, hlib.Tuple(pk.HexS(k), pk.Hex(np[k])))
+	}
+	return hlib.List(tbl)
+}
+
+func run(d desc) hlib.Case {
+	c := hlib.Case{Kind: d.Kind}
+	switch d.Kind {
+	case "cookie":
+		ck := &fasthttp.Cookie{}
+		if d.Pool {
+			used := fasthttp.AcquireCookie()
+			dirty(used)
+			fasthttp.ReleaseCookie(used)
+			ck = fasthttp.AcquireCookie()
 		}
-		stored := cookieTerm(&ck)
+		np := map[string][]byte{"/": fasthttp.VerifNormalizePath([]byte("/"))}
+		ops := applyCops(ck, d.Ops, np)
+		tblS := npTable(np)
+		for i := range ops {
+			ops[i] = strings.ReplaceAll(ops[i], "NPF", hlib.App("np_of_table", tblS))
+		}
+		stored := cookieTerm(ck)
 		out := append([]byte(nil), ck.Cookie()...)
 		var p fasthttp.Cookie
+		dirty(&p) // ParseBytes must reset its target
 		perr := p.ParseBytes(append([]byte(nil), out...))
 		// through a response: SetCookie, write, read back, Header.Cookie
 		var via fasthttp.Cookie
+		dirty(&via)
 		viaOK := false
 		{
 			var resp fasthttp.Response
-			resp.Header.SetCookie(&ck)
+			resp.Header.SetCookie(ck)
 			var bb bytes.Buffer
 			bw := bufio.NewWriter(&bb)
 			if err := resp.Write(bw); err == nil {
@@ -164,9 +229,12 @@ func run(d desc) hlib.Case {
 				}
 			}
 		}
-		c.Coq = hlib.App("CCookie", hlib.List(tbl), hlib.List(ops), stored, pk.Hex(out), optCookie(&p, perr == nil), optCookie(&via, viaOK))
+		c.Coq = hlib.App("CCookie", tblS, hlib.List(ops), stored, pk.Hex(out), optCookie(&p, perr == nil), optCookie(&via, viaOK))
 		c.Size = len(out)
 		c.Sig = fmt.Sprint("cookie:", perr == nil, viaOK, ck.MaxAge() != 0, !ck.Expire().IsZero(), len(ck.Domain()) > 0, len(ck.Path()) > 0, ck.HTTPOnly(), ck.Secure(), ck.SameSite(), ck.Partitioned(), len(ck.Key()) > 0)
+		if d.Pool {
+			fasthttp.ReleaseCookie(ck)
+		}
 	case "parse":
 		var p fasthttp.Cookie
 		err := p.ParseBytes(append([]byte(nil), d.Src...))
@@ -211,6 +279,168 @@ func run(d desc) hlib.Case {
 		c.Coq = hlib.App("CReqCookies", hlib.List(sets), pk.Hex(line), kvList(seen), wire)
 		c.Size = len(line)
 		c.Sig = fmt.Sprint("reqcookies:", len(d.Sets), len(seen), wireN)
+	case "reqjar":
+		var req fasthttp.Request
+		h := &req.Header
+		var ops []string
+		for i, o := range d.Jar {
+			k, v := []byte(o.K), []byte(o.V)
+			switch o.T {
+			case "set":
+				switch (o.Vr + i) % 3 {
+				case 0:
+					h.SetCookie(string(k), string(v))
+				case 1:
+					h.SetCookieBytesK(k, string(v))
+				default:
+					h.SetCookieBytesKV(k, v)
+				}
+				ops = append(ops, hlib.App("JSet", pk.Hex(k), pk.Hex(v)))
+			case "del":
+				if o.Vr%2 == 0 {
+					h.DelCookie(string(k))
+				} else {
+					h.DelCookieBytes(k)
+				}
+				ops = append(ops, hlib.App("JDel", pk.Hex(k)))
+			case "delall":
+				h.DelAllCookies()
+				ops = append(ops, "JDelAll")
+			case "raw":
+				var kvs [][2][]byte
+				for _, p := range o.Pairs {
+					kvs = append(kvs, [2][]byte{p[0], p[1]})
+				}
+				text := fasthttp.VerifAppendRequestCookieBytes(kvs)
+				if o.Vr%2 == 0 {
+					h.Set("Cookie", string(text))
+				} else {
+					h.AddBytesKV([]byte("cookie"), text)
+				}
+				ops = append(ops, hlib.App("JRaw", kvList(kvs)))
+			default:
+				panic("bad jar op " + o.T)
+			}
+		}
+		var direct [][2][]byte
+		h.VisitAllCookie(func(k, v []byte) {
+			direct = append(direct, [2][]byte{append([]byte(nil), k...), append([]byte(nil), v...)})
+		})
+		line := append([]byte(nil), h.Peek("Cookie")...)
+		seen := fasthttp.VerifParseRequestCookies(append([]byte(nil), line...))
+		var peeks []string
+		for i, k := range d.Peek {
+			var v []byte
+			if i%2 == 0 {
+				v = h.Cookie(string(k))
+			} else {
+				v = h.CookieBytes(k)
+			}
+			if v == nil {
+				peeks = append(peeks, hlib.Tuple(pk.Hex(k), hlib.None()))
+			} else {
+				peeks = append(peeks, hlib.Tuple(pk.Hex(k), hlib.Some(pk.Hex(v))))
+			}
+		}
+		req.SetRequestURI("http://example.com/")
+		var bb bytes.Buffer
+		bw := bufio.NewWriter(&bb)
+		wire := hlib.None()
+		wireN := -1
+		if err := req.Write(bw); err == nil {
+			bw.Flush()
+			var r2 fasthttp.Request
+			if err := r2.Read(bufio.NewReader(&bb)); err == nil {
+				var w [][2][]byte
+				for k, v := range r2.Header.Cookies() {
+					w = append(w, [2][]byte{append([]byte(nil), k...), append([]byte(nil), v...)})
+				}
+				wire = hlib.Some(kvList(w))
+				wireN = len(w)
+			}
+		}
+		c.Coq = hlib.App("CReqJar", hlib.List(ops), kvList(direct), pk.Hex(line), kvList(seen), hlib.List(peeks), wire)
+		c.Size = len(line)
+		c.Sig = fmt.Sprint("reqjar:", len(d.Jar), len(direct), len(seen), wireN)
+	case "respjar":
+		var resp fasthttp.Response
+		h := &resp.Header
+		np := map[string][]byte{"/": fasthttp.VerifNormalizePath([]byte("/"))}
+		var ops, sops []string
+		for _, o := range d.Jar {
+			k := []byte(o.K)
+			switch o.T {
+			case "rset":
+				ck := fasthttp.AcquireCookie()
+				cops := applyCops(ck, o.C, np)
+				h.SetCookie(ck)
+				ops = append(ops, hlib.App("RSSet", hlib.List(cops)))
+				sops = append(sops, hlib.App("SJSet", cookieTerm(ck)))
+				fasthttp.ReleaseCookie(ck) // "It is safe re-using the cookie after the function returns"
+			case "rdel":
+				if o.Vr%2 == 0 {
+					h.DelCookie(string(k))
+				} else {
+					h.DelCookieBytes(k)
+				}
+				ops = append(ops, hlib.App("RSDel", pk.Hex(k)))
+				sops = append(sops, hlib.App("SJDel", pk.Hex(k)))
+			case "rdelclient":
+				if o.Vr%2 == 0 {
+					h.DelClientCookie(string(k))
+				} else {
+					h.DelClientCookieBytes(k)
+				}
+				ops = append(ops, hlib.App("RSDelClient", pk.Hex(k)))
+				sops = append(sops, hlib.App("SJDelClient", pk.Hex(k)))
+			case "rdelall":
+				h.DelAllCookies()
+				ops = append(ops, "RSDelAll")
+				sops = append(sops, "SJDelAll")
+			default:
+				panic("bad resp jar op " + o.T)
+			}
+		}
+		tblS := npTable(np)
+		for i := range ops {
+			ops[i] = strings.ReplaceAll(ops[i], "NPF", hlib.App("np_of_table", tblS))
+		}
+		var direct []string
+		total := 0
+		h.VisitAllCookie(func(k, v []byte) {
+			var p fasthttp.Cookie
+			dirty(&p)
+			err := p.ParseBytes(append([]byte(nil), v...))
+			// PeekCookie / Cookie(&c) must find the same entry
+			if pv := h.PeekCookie(string(k)); !bytes.Equal(pv, v) {
+				panic(fmt.Sprintf("PeekCookie(%q) = %q, VisitAllCookie gave %q", k, pv, v))
+			}
+			direct = append(direct, hlib.Tuple(pk.Hex(k), pk.Hex(v), optCookie(&p, err == nil)))
+			total += len(v)
+		})
+		wire := hlib.None()
+		wireN := -1
+		{
+			var bb bytes.Buffer
+			bw := bufio.NewWriter(&bb)
+			if err := resp.Write(bw); err == nil {
+				bw.Flush()
+				var r2 fasthttp.Response
+				if err := r2.Read(bufio.NewReader(&bb)); err == nil {
+					var w []string
+					for _, v := range r2.Header.Cookies() {
+						var p fasthttp.Cookie
+						err := p.ParseBytes(append([]byte(nil), v...))
+						w = append(w, hlib.Tuple(pk.Hex(v), optCookie(&p, err == nil)))
+					}
+					wire = hlib.Some(hlib.List(w))
+					wireN = len(w)
+				}
+			}
+		}
+		c.Coq = hlib.App("CRespJar", tblS, hlib.List(ops), hlib.List(sops), hlib.List(direct), wire)
+		c.Size = total
+		c.Sig = fmt.Sprint("respjar:", len(d.Jar), len(direct), wireN)
 	case "reqparse":
 		seen := fasthttp.VerifParseRequestCookies(append([]byte(nil), d.Src...))
 		c.Coq = hlib.App("CReqParse", pk.Hex(d.Src), kvList(seen))
@@ -322,6 +552,49 @@ func corpus() []desc {
 	for _, m := range maxAges {
 		c = append(c, desc{Kind: "cookie", Ops: []cop{{T: "key", V: []byte("k")}, {T: "value", V: []byte("v")}, {T: "expire", N: 1700000000}, {T: "maxage", N: m}}})
 	}
+	// boundary bytes of every validity table (validCookieValue, validCookiePathValue, cookie-octets, header field
+	// value bytes) alone and at the edges/middle of key, value, domain and path; on both header types
+	bounds := []byte{0x20, 0x21, 0x22, 0x2c, 0x3b, 0x5c, 0x7e, 0x7f, 0x80, 0xff, 0x00, 0x09, 0x0a, 0x0d, 0x1f, 0x3d, 0x25, 0x2f, 0x7d}
+	if f := flag.Lookup("n"); f != nil {
+		if n, err := strconv.Atoi(f.Value.String()); err == nil && n >= 20000 {
+			bounds = bounds[:0]
+			for b := 0; b < 256; b++ {
+				bounds = append(bounds, byte(b))
+			}
+		}
+	}
+	for _, b := range bounds {
+		for _, pat := range [][]byte{{b}, {'x', b}, {b, 'x'}, {'x', b, 'x'}} {
+			c = append(c, attrCombo(3, pat, []byte("v"), nil, nil), attrCombo(0, []byte("k"), pat, nil, nil),
+				attrCombo(6, []byte("k"), []byte("v"), pat, nil), attrCombo(1, []byte("k"), []byte("v"), nil, append([]byte("/"), pat...)))
+			c = append(c, desc{Kind: "reqjar", Jar: []jop{{T: "set", K: pat, V: []byte("1")}, {T: "set", K: []byte("z"), V: pat}}, Peek: []hlib.B{pat, []byte("z")}})
+		}
+	}
+	// jars: several cookies, replacement, deletion, raw Cookie header lines mixed with SetCookie, peeks
+	ck := func(k, v string, extra ...cop) []cop {
+		return append([]cop{{T: "key", V: []byte(k)}, {T: "value", V: []byte(v)}}, extra...)
+	}
+	c = append(c,
+		desc{Kind: "reqjar", Peek: []hlib.B{[]byte("a"), []byte("b"), []byte("zz"), []byte("")}, Jar: []jop{{T: "set", K: []byte("a"), V: []byte("1")}, {T: "set", K: []byte("b"), V: []byte("2")}, {T: "set", K: []byte("a"), V: []byte("3")}, {T: "del", K: []byte("b")}, {T: "set", K: []byte("c"), V: []byte("4; d=5")}}},
+		desc{Kind: "reqjar", Peek: []hlib.B{[]byte("a"), []byte("x")}, Jar: []jop{{T: "raw", Pairs: [][2]hlib.B{{[]byte("a"), []byte("1")}, {[]byte("x"), []byte("y")}}}, {T: "set", K: []byte("a"), V: []byte("2")}, {T: "raw", Vr: 1, Pairs: [][2]hlib.B{{[]byte("a"), []byte("9")}}}, {T: "del", K: []byte("x"), Vr: 1}}},
+		desc{Kind: "reqjar", Jar: []jop{{T: "set", K: []byte("a"), V: []byte("1")}, {T: "delall"}, {T: "set", K: []byte("b"), V: []byte("2")}, {T: "del", K: []byte("nope")}}},
+		desc{Kind: "reqjar", Jar: []jop{{T: "set", K: []byte("a;b"), V: []byte("1")}, {T: "del", K: []byte("a;b")}, {T: "del", K: []byte("a b")}}},
+		desc{Kind: "respjar", Jar: []jop{{T: "rset", C: ck("a", "1", cop{T: "secure", B: true})}, {T: "rset", C: ck("b", "2", cop{T: "path", V: []byte("/p")}, cop{T: "httponly", B: true})}, {T: "rset", C: ck("a", "3", cop{T: "maxage", N: 5})}}},
+		desc{Kind: "respjar", Jar: []jop{{T: "rset", C: ck("a", "1")}, {T: "rset", C: ck("b", "2")}, {T: "rdel", K: []byte("a")}, {T: "rdelclient", K: []byte("b")}, {T: "rdelclient", K: []byte("gone; x"), Vr: 1}, {T: "rset", C: ck("c", "x; Secure")}}},
+		desc{Kind: "respjar", Jar: []jop{{T: "rset", C: ck("a", "1")}, {T: "rdelall"}, {T: "rset", C: ck("a\r\nSet-Cookie: evil", "2", cop{T: "domain", V: []byte("d; Path=/")})}, {T: "rdel", K: []byte("zz"), Vr: 1}}},
+		desc{Kind: "respjar", Jar: []jop{{T: "rset", C: ck("", "v")}, {T: "rset", C: ck("", "w")}, {T: "rset", C: ck("k", "")}, {T: "rset", C: ck("k=v", "x")}}},
+	)
+	// re-used objects: CopyTo, the pool, Reset in the middle; sub-second and non-UTC expiry instants
+	c = append(c,
+		desc{Kind: "cookie", Pool: true, Ops: ck("k", "v")},
+		desc{Kind: "cookie", Pool: true, Ops: []cop{{T: "value", V: []byte("only")}}},
+		desc{Kind: "cookie", Ops: append(ck("old", "o", cop{T: "domain", V: []byte("o.example")}, cop{T: "partitioned", B: true}, cop{T: "samesite", N: 3}),
+			cop{T: "copyfrom", Src: ck("new", "n; x", cop{T: "path", V: []byte("/np")}, cop{T: "maxage", N: -1})})},
+		desc{Kind: "cookie", Ops: append(ck("a", "b"), cop{T: "copyfrom", Src: nil}, cop{T: "value", V: []byte("after")})},
+		desc{Kind: "cookie", Ops: ck("k", "v", cop{T: "expire", N: 1700000000, Ns: 999999999})},
+		desc{Kind: "cookie", Ops: ck("k", "v", cop{T: "expire", N: 1700000000, Ns: 1, Loc: true})},
+		desc{Kind: "cookie", Ops: ck("k", "v", cop{T: "expire", N: 951782399, Loc: true})},
+	)
 	// setter interplay: SameSite=None forces Secure, Partitioned forces Secure and Path=/, Reset
 	c = append(c, desc{Kind: "cookie", Ops: []cop{{T: "key", V: []byte("k")}, {T: "samesite", N: 4}, {T: "secure", B: false}, {T: "partitioned", B: true}, {T: "path", V: []byte("/x")}}},
 		desc{Kind: "cookie", Ops: []cop{{T: "key", V: []byte("k")}, {T: "path", V: []byte("/x")}, {T: "partitioned", B: true}, {T: "partitioned", B: false}, {T: "samesite", N: 2}}},
@@ -392,11 +665,17 @@ func gen(r *rand.Rand, i int) desc {
 			case 9:
 				d.Ops = append(d.Ops, cop{T: "partitioned", B: r.Intn(2) == 0})
 			default:
-				if r.Intn(4) == 0 {
+				switch r.Intn(4) {
+				case 0:
 					d.Ops = append(d.Ops, cop{T: "reset"})
+				case 1:
+					d.Ops = append(d.Ops, cop{T: "copyfrom", Src: attrCombo(r.Intn(1<<20), randName(r), randStr(r), nil, []byte(hlib.Pick(r, paths))).Ops})
+				case 2:
+					d.Ops = append(d.Ops, cop{T: "expire", N: hlib.Pick(r, expires[1:]), Ns: int64(r.Intn(1000000000)), Loc: r.Intn(2) == 0})
 				}
 			}
 		}
+		d.Pool = r.Intn(3) == 0
 		return d
 	case 5:
 		b := []byte("k=v")
@@ -420,7 +699,60 @@ func gen(r *rand.Rand, i int) desc {
 		}
 		return d
 	default:
-		return desc{Kind: "reqparse", Src: hlib.Bytes(r, []byte("ab=;; \"\\ =1"), 14)}
+		switch r.Intn(3) {
+		case 0:
+			return desc{Kind: "reqparse", Src: hlib.Bytes(r, []byte("ab=;; \"\\ =1"), 14)}
+		case 1:
+			d := desc{Kind: "reqjar"}
+			keys := [][]byte{[]byte("a"), []byte("b"), []byte("sid"), randName(r), randStr(r)}
+			n := 1 + r.Intn(6)
+			for j := 0; j < n; j++ {
+				switch r.Intn(8) {
+				case 0, 1, 2, 3:
+					d.Jar = append(d.Jar, jop{T: "set", K: hlib.Pick(r, keys), V: randStr(r), Vr: r.Intn(3)})
+				case 4, 5:
+					d.Jar = append(d.Jar, jop{T: "del", K: hlib.Pick(r, keys), Vr: r.Intn(2)})
+				case 6:
+					var ps [][2]hlib.B
+					for q := 0; q < 1+r.Intn(2); q++ {
+						k := hlib.Bytes(r, nameAlpha, 4)
+						if len(k) == 0 {
+							k = []byte("r")
+						}
+						ps = append(ps, [2]hlib.B{k, hlib.Bytes(r, []byte("abc019-_."), 5)})
+					}
+					d.Jar = append(d.Jar, jop{T: "raw", Pairs: ps, Vr: r.Intn(2)})
+				default:
+					d.Jar = append(d.Jar, jop{T: "delall"})
+				}
+			}
+			d.Peek = []hlib.B{hlib.Pick(r, keys), hlib.Pick(r, keys)}
+			return d
+		default:
+			d := desc{Kind: "respjar"}
+			keys := [][]byte{[]byte("a"), []byte("b"), randName(r), randStr(r)}
+			n := 1 + r.Intn(5)
+			for j := 0; j < n; j++ {
+				switch r.Intn(7) {
+				case 0, 1, 2, 3:
+					var dom, path []byte
+					if r.Intn(2) == 0 {
+						dom = randStr(r)
+					}
+					if r.Intn(2) == 0 {
+						path = []byte(hlib.Pick(r, paths))
+					}
+					d.Jar = append(d.Jar, jop{T: "rset", C: attrCombo(r.Intn(1<<20), hlib.Pick(r, keys), randStr(r), dom, path).Ops})
+				case 4:
+					d.Jar = append(d.Jar, jop{T: "rdel", K: hlib.Pick(r, keys), Vr: r.Intn(2)})
+				case 5:
+					d.Jar = append(d.Jar, jop{T: "rdelclient", K: hlib.Pick(r, keys), Vr: r.Intn(2)})
+				default:
+					d.Jar = append(d.Jar, jop{T: "rdelall"})
+				}
+			}
+			return d
+		}
 	}
 }
 
@@ -431,7 +763,7 @@ func main() {
 		CaseType: "c06case",
 		CorrOK:   "corr_ok",
 		PropOK:   "prop_ok",
-		Rule: "corpus: all attribute combinations (3 flags x 5 SameSite x {none, expires, max-age, both} x domain/path presence), a dictionary of separator strings (; = \" \\ CR LF SP , %3B) in key, value, domain and path, boundary expiry instants and max-ages, setter interplay, parser dictionaries; " +
+		Rule: "corpus: boundary bytes of the validity tables in key/value/domain/path (all 256 when n >= 20000), cookie jars of both header types (several cookies, replacement, DelCookie, DelClientCookie, DelAllCookies, raw Cookie lines, peeks), re-used objects (pool, CopyTo, Reset, dirty ParseBytes targets), sub-second and non-UTC expiry; all attribute combinations (3 flags x 5 SameSite x {none, expires, max-age, both} x domain/path presence), a dictionary of separator strings (; = \" \\ CR LF SP , %3B) in key, value, domain and path, boundary expiry instants and max-ages, setter interplay, parser dictionaries; " +
 			"then seeded random: separator-rich strings, cookie-octet strings (must round-trip), random setter sequences, attribute strings for ParseBytes, sequences of 1-5 RequestHeader.SetCookie calls; " +
 			"observed through Cookie.ParseBytes, ResponseHeader.SetCookie -> Response.Write -> Response.Read -> Header.Cookie, parseRequestCookies and Request.Write -> Request.Read -> VisitAllCookie; " +
 			"a case is non-trivial when it reaches a distinct (kind, outcome, attribute presence) class",
